@@ -66,7 +66,10 @@ def rep_correspondence(ctx, n):
                 fq = next_first_quantized(fq.copy(), d)
             orc = np.array([[np.linalg.det(U[np.ix_(r, c)]) if nn else 1.0 for c in subs] for r in subs]).reshape(len(subs), len(subs))
             lines.append(f"fermirep {d} {nn} " + ",".join(qi(z) for z in U.reshape(-1)))
-            metas.append((np.asarray(reps[nn]), np.asarray(reps2[nn]), orc, d, nn, sorted(subs) == sorted(itertools.combinations(range(d), nn))))
+            # a representation list that stops early (a missing sector) is a mismatch, not a harness error
+            r1 = np.asarray(reps[nn]) if nn < len(reps) else np.zeros((0, 0))
+            r2 = np.asarray(reps2[nn]) if nn < len(reps2) else np.zeros((0, 0))
+            metas.append((r1, r2, orc, d, nn, sorted(subs) == sorted(itertools.combinations(range(d), nn))))
     outs = ctx.lean_run(lines)
     mism = []
     for l, (r1, r2, orc, d, nn, subs_ok), o in zip(lines, metas, outs):
@@ -79,7 +82,7 @@ def rep_correspondence(ctx, n):
             mism.append((l[:100], "next_first_quantized does not enumerate the n-subsets")); continue
         for nm, r in (("numba", r1), ("generic", r2), ("determinant oracle", orc)):
             if M.shape != r.shape or np.abs(M - r).max() > 1e-9 * (1 + np.abs(M).max()):
-                mism.append((l[:100], f"{nm} block n={nn} differs from the model by {np.abs(M - r).max() if M.shape == r.shape else 'shape ' + str(r.shape)}")); break
+                mism.append((l[:100], f"{nm} block n={nn} differs from the model by {np.abs(M - r).max() if M.shape == r.shape else ('a missing block' if r.size == 0 else 'shape ' + str(r.shape))}")); break
     return mism
 
 
